@@ -10,7 +10,7 @@
    `within t dlo`: t is not after the deadline. *)
 From TX Require Import Model.Lockout Proofs.Lockout Proofs.LockoutBudget Proofs.SideC18 Gen.C18.
 From TX Require Model.BucketMap Proofs.BucketMap.
-From TX Require Import Proofs.RegRate.
+From TX Require Import Proofs.RegRate Proofs.LockoutClauses.
 Open Scope Z_scope.
 
 (* (1) locked out: once a ban record for ip is in place — temporary until dl, or permanent (dlo = None) —
@@ -36,6 +36,39 @@ Theorem C18_threshold_establishes_ban :
   covers (bans s') ip (ban_deadline C (now s) d) /\ now s' = now s /\ p' = PIdle.
 Proof. exact threshold_bans. Qed.
 Print Assumptions C18_threshold_establishes_ban.
+
+(* (1 end to end) the headline clause in one statement: a thread is between the two halves of a RecordFailure(ip) whose
+   counters reached MaxFailures within the window (d = DTemp) or PermanentBanAt (d = DPerm); it takes its step; from
+   then on, in EVERY state reachable by EVERY schedule, ip is refused as banned until now + BanDuration, resp. for ever
+   (ban_deadline).  Hypotheses: no thread program holds UnbanIP(ip) or a restart (threads_lock) *)
+Theorem C18_lockout_end_to_end :
+  forall C ip d res rest log (s : sst) i sched,
+  threads_lock ip s -> d <> DNone ->
+  nth_error (snd s) i = Some (LProg (PFailB ip d res) rest log) ->
+  let dl := ban_deadline C (now (fst s)) d in
+  let s' := runs current_variant C (step current_variant C s i) sched in
+  within (now (fst s')) dl -> is_banned (fst s') ip = true.
+Proof. exact lockout_end_to_end. Qed.
+Print Assumptions C18_lockout_end_to_end.
+
+Theorem C18_end_to_end_premises_satisfiable :
+  let s0 := runs current_variant wit_cfg (init_sh, nv_threads) [0; 2; 1]%nat in
+  threads_lock 7 s0 /\
+  nth_error (snd s0) 1 = Some (LProg (PFailB 7 DTemp 1) [CCleanup; CHs 7 HAnonOk; CQuery 9; CUnban 9] []) /\
+  ban_deadline wit_cfg (now (fst s0)) DTemp = Some 400.
+Proof. exact end_to_end_premises_satisfiable. Qed.
+Print Assumptions C18_end_to_end_premises_satisfiable.
+
+(* (1c') every schedule of any number of threads (any variant) induces, for every address, a history of failures /
+   clean-ups / resets with a monotone clock whose fold IS the failure record of that address: the exactness of the
+   windowed counter (1c) and the decision from the counters therefore speak about every schedule *)
+Theorem C18_schedule_projects_to_history :
+  forall V C ip (s : sst) sched,
+  exists h, mono_from (now (fst s)) h /\
+            last_time (now (fst s)) h <= now (fst (runs V C s sched)) /\
+            fails (fst (runs V C s sched)) ip = fold_left (fop_step C) h (fails (fst s) ip).
+Proof. exact schedule_projects_to_history. Qed.
+Print Assumptions C18_schedule_projects_to_history.
 
 (* (1c) the windowed counter is exact over every history of failures / clean-ups / successes of one
    address with a monotone clock: at a failure at time t the record holds exactly the failure times since
@@ -100,6 +133,21 @@ Theorem C18_no_false_refusal_premises_satisfiable :
   0 < fold_right Z.add 0 (map (budget 7%N) nf_threads).
 Proof. exact no_false_refusal_premises_satisfiable. Qed.
 Print Assumptions C18_no_false_refusal_premises_satisfiable.
+
+(* PARTIAL (window-aware form of (2) at schedule level, not proved): whenever ip is found banned, the history the schedule
+   induces on its failure record (C18_schedule_projects_to_history) contains a failure at which a threshold was reached.
+   What is proved instead: the counting form above (all schedules), and the window-aware form per step
+   (C18_ban_created_only_by + C18_pending_ban_only_at_threshold + C18_decision_from_counters + C18_window_count_exact) *)
+Definition C18_no_false_refusal_window_full_statement : Prop :=
+  forall C ip threads sched,
+  Forall (thr_quiet ip) threads ->
+  let s := runs current_variant C (init_sh, threads) sched in
+  is_banned (fst s) ip = true ->
+  exists h t h',
+    mono_from 0 (h ++ (t, FFail) :: h') /\
+    fails (fst s) ip = fold_left (fop_step C) (h ++ (t, FFail) :: h') None /\
+    (perm C <= total_of (fold_left (fop_step C) (h ++ [(t, FFail)]) None) \/
+     maxf C <= lenZ (prune (window C) t (fold_left spec_step h [] ++ [t]))).
 
 (* (3) a blacklisted, not whitelisted address is refused by IsAllowed until the entry's deadline (for ever for a
    permanent entry) under every schedule.  k is ANY list key matching the address (keys_of: the exact address, the
@@ -265,6 +313,16 @@ Theorem C18_uncharged_form_refuted :
     snd (reg_run reg_cfg registers charged None h) = 12 /\ burst reg_cfg = 3.
 Proof. exact uncharged_form_refuted. Qed.
 Print Assumptions C18_uncharged_form_refuted.
+
+(* PARTIAL (schedule-level form of (4)/(4c), not proved): every schedule without a restart induces on the bucket of an
+   address a timed history of Take / collection steps (gate 3 and AllowIP are single atomic steps, so it does; the
+   projection lemma is not written), hence the bounds above hold along every schedule *)
+Definition C18_bucket_schedule_full_statement : Prop :=
+  forall V C ip (s : sst) sched,
+  Forall (fun l => match l with LProg _ rest _ => ~ In CRestart rest | _ => True end) (snd s) ->
+  exists ops, bmono (now (fst s)) ops /\
+              blast (now (fst s)) ops <= now (fst (runs V C s sched)) /\
+              bk (fst (runs V C s sched)) ip = fst (bucket_run C (bk (fst s) ip) ops).
 
 (* (5) gate order of HandleHandshake: a handshake that finds the address blacklisted (gate 1) or banned
    (gate 2) ends there with that refusal: no failure recorded, no ban, no token taken, lists unchanged, the
